@@ -48,6 +48,12 @@ def cases(tier, seed):
     for t in ALL:
         out.append({"name": "retain.history/%s" % t, "kind": "retain", "layer": t})
         out.append({"name": "pending.keepalive/%s" % t, "kind": "keepalive", "layer": t})
+    for t in ALL:
+        out.append({"name": "held.futures/%s" % t, "kind": "held", "layer": t})
+    for t in ("poll", "retry", "throttle", "timeout", "map"):
+        for vop in ("complete", "fail"):
+            out.append({"name": "retain.sweep/%s/%s|cancel" % (t, vop), "kind": "retsweep", "layer": t, "vop": vop,
+                        "cap": 24 if tier == "quick" else None})
     for st in (["map", "retry"], ["retry", "throttle"], ["poll", "timeout"], ["throttle", "poll", "map"]):
         out.append({"name": "retain.history/%s" % ">".join(st), "kind": "retain", "layer": ">".join(st)})
     return out
@@ -347,6 +353,159 @@ def run_retain(case, res):
             end(ctx)
 
 
+def make_history(b, me, hist, tag):
+    """Run one future through a history; returns (future, ok)."""
+    job = Job(tag, Obj("r" + tag))
+    filler = None
+    if hist == "cancelled_queued":
+        filler = b.top.submit(Job("filler" + tag, 0), 0)
+        instr.advance(0.05)
+    f = b.top.submit(job, Obj("a" + tag))
+    instr.advance(0.05)
+    mine = [k for k, it in enumerate(me.items) if it[1] is job]
+    ok = True
+    if hist == "completed":
+        for k in mine:
+            me.run(k)
+    elif hist == "failed":
+        for _ in range(4):
+            for k in [k for k in me.pending() if me.items[k][1] is job]:
+                me.fail(k, UserErrorA("boom"))
+            instr.advance(25.0)
+    elif hist == "cancelled_in_flight":
+        ok = bool(mine) and f.cancel()
+    elif hist == "cancelled_queued":
+        ok = not mine and f.cancel()
+    elif hist == "cancelled_between_retries":
+        for k in mine:
+            me.fail(k, UserErrorA("boom"))
+        instr.advance(0.05)
+        ok = (not f.done()) and f.cancel()
+    instr.advance(25.0)
+    for k in me.pending():
+        me.run(k)
+    instr.advance(25.0)
+    return f, ok and f.done()
+
+
+def run_held(case, res):
+    """The user keeps finished futures and drops the executor: the executor must be collectable and its
+    worker thread must exit (a done future must not reference its executor)."""
+    layer = case["layer"]
+    layers = layer.split(">")
+    for hist in ("completed", "failed", "cancelled_in_flight", "cancelled_queued", "cancelled_between_retries"):
+        if hist == "cancelled_queued" and "throttle" not in layers:
+            continue
+        if hist == "cancelled_between_retries" and "retry" not in layers:
+            continue
+        begin("vt")
+        ctx = Ctx()
+        try:
+            b, threads = build_unowned(layer)
+            me = b.base
+            f, ok = make_history(b, me, hist, "h")
+            if not ok:
+                res.count("history_not_reached")
+                continue
+            wr = weakref.ref(b.top)
+            b = None
+            me.forget()
+            gc.collect()
+            instr.advance(0.05)
+            gc.collect()
+            instr.advance(0.05)
+            res.execs += 1
+            check_common(res)
+            alive = [t.vf_role for t in threads if t.is_alive() and not t.vf_finished]
+            if wr() is not None:
+                res.violation("executor-retained-by-done-future/%s" % hist,
+                              "%s history=%s: the user holds only the finished future, yet the executor is not collected: held by %s"
+                              % (layer, hist, referrer_summary(wr())))
+            elif alive:
+                res.violation("thread-leak/dropped/%s" % layer, "%s history=%s: %s alive although the executor was collected" % (layer, hist, alive))
+            res.key("held", layer, hist)
+            res.count("thread_liveness_samples", len(threads))
+            del f
+        finally:
+            end(ctx)
+
+
+class RetSweepScenario(object):
+    """cancel() placed inside the path that moves a future on (delegate completion -> registration /
+    re-queue / hand-over): afterwards nothing of it may be retained."""
+
+    def __init__(self, case):
+        self.case = case
+
+    def setup(self):
+        ctx = Ctx()
+        b, threads = build_unowned(self.case["layer"])
+        ctx.hold = {"b": b}
+        ctx.me = b.base
+        ctx.threads = threads
+        res_obj, arg = Obj("result"), Obj("arg")
+        job = Job("t", res_obj)
+        ctx.wr = {"callable": weakref.ref(job), "argument": weakref.ref(arg), "result": weakref.ref(res_obj)}
+        ctx.hold["f"] = b.top.submit(job, arg)
+        ctx.wr["future"] = weakref.ref(ctx.hold["f"])
+        ctx.hold["f2"] = b.top.submit(Job("other", 0), 0)
+        instr.advance(0.05)
+        return ctx
+
+    def victim_role(self, ctx):
+        return "V"
+
+    def start_victim(self, ctx):
+        def act():
+            p = ctx.me.pending()
+            if p:
+                if self.case["vop"] == "complete":
+                    ctx.me.run(p[0])
+                else:
+                    ctx.me.fail(p[0], UserErrorA("x"))
+        return ctx.actor("V", act).go()
+
+    def intervene(self, ctx):
+        f = ctx.hold.get("f")
+        if f is not None:
+            f.cancel()
+
+    def finish(self, ctx):
+        for _ in range(5):
+            instr.advance(25.0)
+            for k in ctx.me.pending():
+                ctx.me.run(k)
+        f = ctx.hold.get("f")
+        ctx.done = f is not None and f.done()
+        # the user drops the futures, the delegate forgets its work; the executor lives on
+        ctx.hold.pop("f", None)
+        ctx.hold.pop("f2", None)
+        f = None
+        ctx.me.forget()
+        gc.collect()
+        instr.advance(0.05)
+        gc.collect()
+
+    def oracle(self, ctx, res, info):
+        label = "%s placement=%s" % (self.case["name"], info.get("site"))
+        if not ctx.done:
+            res.count("foreign.future_still_pending")
+            return
+        for what, r in ctx.wr.items():
+            o = r()
+            if o is not None:
+                res.violation("retained/after-cancel-race/%s/%s" % (self.case["layer"], what),
+                              "%s: %s still referenced after the future was done and dropped; held by %s" % (label, what, referrer_summary(o)))
+                del o
+        if info.get("hit"):
+            res.key("retsweep", self.case["name"], info.get("site"))
+        try:
+            ctx.hold["b"].top.shutdown(False)
+        except Exception:
+            pass
+        ctx.hold.clear()
+
+
 def run_keepalive(case, res):
     layer = case["layer"]
     for how in ("value", "exc"):
@@ -461,5 +620,10 @@ def run_case(case, res):
         run_retain(case, res)
     elif k == "keepalive":
         run_keepalive(case, res)
+    elif k == "held":
+        run_held(case, res)
+    elif k == "retsweep":
+        rng = random.Random("c12r/%s/%s" % (case["seed"], case["name"]))
+        Sweep(RetSweepScenario(case), res, "vt", case["name"]).run(case["cap"], rng, per_site=2)
     else:
         run_exit(case, res)
